@@ -101,7 +101,7 @@ def class_sweep(rng):
                     return r2.choice(zero)
                 ch, toks = svgen.expand(start, 60, choose)
                 if st["hit"]:
-                    out.append((start, 60, ch, "%s#%d" % (nt, k)))
+                    out.append((start, 60, ch, "%s#%d/%d" % (nt, k, ctx)))
     return out
 
 
